@@ -573,3 +573,37 @@ def encode_body_rows(tonic):
         out.append(dict(ended=ended, poll=poll, item=item, res=res, role=role, kind=kind, value=val, path=path, polled=polled,
                         sets_end=[const_val(x[3]) for x in sets], cons=cons))
     return pf, out
+
+
+def built_parts(term, out=None):
+    """the aggregate nodes a value is *built from* (through aggregate operands, phis, refs, casts, From/Into conversions) —
+    not the ones it is merely computed from (no descent into projections or other call arguments)"""
+    if out is None:
+        out = []
+    t = term
+    if not isinstance(t, tuple) or not t:
+        return out
+    if t[0] == 'agg':
+        out.append(t)
+        for o in t[2]:
+            built_parts(o, out)
+    elif t[0] == 'phi':
+        for a in t[1]:
+            built_parts(a, out)
+    elif t[0] in ('ref', 'deref'):
+        built_parts(t[1], out)
+    elif t[0] == 'cast':
+        built_parts(t[2], out)
+    elif t[0] == 'call' and t[3] in ('into', 'from') and len(t[2]) == 1:
+        built_parts(t[2][0], out)
+    return out
+
+
+def returned_aggs(body, adt_suffix, variant):
+    """[(bb, i, place, aggdict, ops)] of the aggregates of that kind that are part of what the function returns"""
+    rets = mirlib.returned_terms(body)
+    parts = []
+    for _, rt in rets:
+        parts.extend(built_parts(rt))
+    ids = {id(p[1]) for p in parts}
+    return [x for x in mirlib.aggregates(body, adt_suffix, variant) if id(x[3]) in ids]
